@@ -15,7 +15,7 @@ func init() {
 		ID:        "C12",
 		Level:     "model_checking",
 		Technique: "bounded exhaustive exploration of set/set-nil/get/copy/grow operation sequences over several owners and keys on the real objects, compared after every step with a map-per-owner reference model; stored-state growth measured through the objects' %#v form",
-		Rule: "family owners: 9 owners (table, column 0, column 1 via a handle taken before any growth and via a fresh lookup, column 2, attached row, detached row, body cell, header cell) x 3 keys x {v1,v2,nil} plus table growth by 3 and by 11 columns, all sequences to depth 3 (thorough 4); " +
+		Rule: "family owners: starting from a 3-column table (12 owners: table, column 0/1/3(last) each via a handle taken before any growth AND via a fresh lookup, column 2, attached row, detached row, body cell, header cell) or from an empty table (table, column 0 via handle and fresh lookup, detached row) x 3 keys x {v1,v2,nil} plus table growth by 3 and by 11 columns, all sequences to depth 3 (thorough 4); " +
 			"family copies: a cell, by-value copies of it made at any point (c := *cell; range copy), and one Cell value added to two rows, x 3 keys x {v1,v2,nil}, all sequences to depth 4 (thorough 5); " +
 			"family keys: one owner x 8 keys (equal values of distinct types, two pointers, a struct) x {v1,v2,nil} to depth 3; after EVERY step every owner is read for every key; non-trivial = sequence with an overwrite, a nil-set, a copy or a growth; distinct by reference state",
 		Assumptions: []string{"keys are comparable and non-nil (others panic by design)", "stored-state size is read from the %#v form (number of chain links); if that form cannot be parsed the growth clause is skipped, not failed"},
@@ -141,38 +141,54 @@ func runC12(x *X) {
 
 	// ---- family owners
 	depth := x.Pick(3, 4)
-	x.Explore("owners", ExploreOpts{ShardDepth: 2, Bound: fmt.Sprintf("9 owners x 3 keys x 3 values + 2 growth ops, depth<=%d", depth)}, func(c *Chooser) {
+	x.Explore("owners", ExploreOpts{ShardDepth: 2, Bound: fmt.Sprintf("start {3-column table: 12 owners | empty table: 4 owners} x 3 keys x 3 values + growth by 3 and by 11 columns, depth<=%d", depth)}, func(c *Chooser) {
 		t := tabular.New()
-		t.AddHeaders("h1", "h2", "h3")
-		t.AddRowItems("a", "b", "c")
+		empty := c.Choose(2) == 1
 		det := tabular.NewRow()
 		det.Add(tabular.NewCell("d"))
-		handle := t.Column(1)
-		c.Logf("t := New(); t.AddHeaders(h1,h2,h3); t.AddRowItems(a,b,c); det := NewRow(); handle := t.Column(1)")
-		row := t.AllRows()[0]
-		col1 := map[interface{}]interface{}{}
-		owners := []*pOwner{
-			{name: "table", get: func() tabular.PropertyOwner { return t }, model: map[interface{}]interface{}{}, links: tableLinks(t)},
-			{name: "t.Column(0)", get: func() tabular.PropertyOwner { return t.Column(0) }, model: map[interface{}]interface{}{}, links: columnLinks(t, 0)},
-			{name: "handle(=t.Column(1) taken at start)", get: func() tabular.PropertyOwner { return handle }, model: col1},
-			{name: "t.Column(1)", get: func() tabular.PropertyOwner { return t.Column(1) }, model: col1, links: columnLinks(t, 1)},
-			{name: "t.Column(2)", get: func() tabular.PropertyOwner { return t.Column(2) }, model: map[interface{}]interface{}{}, links: columnLinks(t, 2)},
-			{name: "attached row", get: func() tabular.PropertyOwner { return row }, model: map[interface{}]interface{}{}, links: rowLinks(row)},
-			{name: "detached row", get: func() tabular.PropertyOwner { return det }, model: map[interface{}]interface{}{}, links: rowLinks(det)},
-			{name: "CellAt(1,1)", get: func() tabular.PropertyOwner {
+		var owners []*pOwner
+		mk := func() map[interface{}]interface{} { return map[interface{}]interface{}{} }
+		owners = append(owners, &pOwner{name: "table", get: func() tabular.PropertyOwner { return t }, model: mk(), links: tableLinks(t)})
+		col0 := mk()
+		h0 := t.Column(0)
+		owners = append(owners,
+			&pOwner{name: "handle0(=t.Column(0) taken at start)", get: func() tabular.PropertyOwner { return h0 }, model: col0},
+			&pOwner{name: "t.Column(0)", get: func() tabular.PropertyOwner { return t.Column(0) }, model: col0, links: columnLinks(t, 0)},
+			&pOwner{name: "detached row", get: func() tabular.PropertyOwner { return det }, model: mk(), links: rowLinks(det)})
+		if empty {
+			c.Logf("t := New()   // no columns yet; h0 := t.Column(0); det := NewRow()")
+		} else {
+			t.AddHeaders("h1", "h2", "h3")
+			t.AddRowItems("a", "b", "c")
+			c.Logf("t := New(); t.AddHeaders(h1,h2,h3); t.AddRowItems(a,b,c); det := NewRow(); h0,h1,h3 := t.Column(0),t.Column(1),t.Column(3)")
+			row := t.AllRows()[0]
+			col1, col3 := mk(), mk()
+			h1, h3 := t.Column(1), t.Column(3)
+			owners = append(owners,
+				&pOwner{name: "handle1(=t.Column(1) taken at start)", get: func() tabular.PropertyOwner { return h1 }, model: col1},
+				&pOwner{name: "t.Column(1)", get: func() tabular.PropertyOwner { return t.Column(1) }, model: col1, links: columnLinks(t, 1)},
+				&pOwner{name: "t.Column(2)", get: func() tabular.PropertyOwner { return t.Column(2) }, model: mk(), links: columnLinks(t, 2)},
+				&pOwner{name: "handle3(=t.Column(3), the last column, taken at start)", get: func() tabular.PropertyOwner { return h3 }, model: col3},
+				&pOwner{name: "t.Column(3)", get: func() tabular.PropertyOwner { return t.Column(3) }, model: col3, links: columnLinks(t, 3)},
+				&pOwner{name: "attached row", get: func() tabular.PropertyOwner { return row }, model: mk(), links: rowLinks(row)})
+			cellGet := func() tabular.PropertyOwner {
 				cp, err := t.CellAt(tabular.CellLocation{Row: 1, Column: 1})
 				if err != nil {
 					panic("harness: CellAt(1,1): " + err.Error())
 				}
 				return cp
-			}, model: map[interface{}]interface{}{}},
-			{name: "Headers()[1]", get: func() tabular.PropertyOwner { return &t.Headers()[1] }, model: map[interface{}]interface{}{}},
+			}
+			hdrGet := func() tabular.PropertyOwner { return &t.Headers()[1] }
+			owners = append(owners,
+				&pOwner{name: "CellAt(1,1)", get: cellGet, model: mk(), links: cellLinks(func() *tabular.Cell { return cellGet().(*tabular.Cell) })},
+				&pOwner{name: "Headers()[1]", get: hdrGet, model: mk(), links: cellLinks(func() *tabular.Cell { return hdrGet().(*tabular.Cell) })})
 		}
-		owners[7].links = cellLinks(func() *tabular.Cell { return owners[7].get().(*tabular.Cell) })
-		owners[8].links = cellLinks(func() *tabular.Cell { return owners[8].get().(*tabular.Cell) })
 		keys := []interface{}{"k", mykey("k"), p1}
 		keyNames := []string{`"k"`, `mykey("k")`, "ptr1"}
 		var tags []string
+		if empty {
+			tags = append(tags, "started_with_no_columns")
+		}
 		grown := false
 		nt := false
 		for step := 0; step < depth; step++ {
@@ -211,10 +227,7 @@ func runC12(x *X) {
 				} else {
 					o.model[keys[ki]] = vals[vi]
 				}
-				if oi == 2 && grown {
-					tags = appendUnique(tags, "column_handle_across_reallocation")
-				}
-				if oi == 3 && grown {
+				if strings.Contains(o.name, "Column(") && grown {
 					tags = appendUnique(tags, "column_handle_across_reallocation")
 				}
 			}
@@ -222,7 +235,7 @@ func runC12(x *X) {
 				return
 			}
 		}
-		x.State(modelKey(owners) + fmt.Sprint(grown))
+		x.State(modelKey(owners) + fmt.Sprint(grown, empty))
 		if nt {
 			x.Nontrivial(fmt.Sprint(c.path))
 		}
